@@ -83,6 +83,74 @@ def runIdents (labelLength : Nat) : TState → List (Nat × Str) → List Str
     let (r, st') := truncIdent labelLength st cls name
     r :: runIdents labelLength st' rest
 
+/-! ## the dialect's limits over an engine's life (engine/default.py `initialize`)
+
+`max_identifier_length` may shrink at first connect (`_check_max_identifier_length`,
+e.g. Oracle < 12.2); every formatting call reads the limits the dialect holds *now*. -/
+
+structure DState where
+  /-- `dialect.max_identifier_length` -/
+  maxIdent : Nat
+  /-- `_user_defined_max_identifier_length` is set -/
+  userDefined : Bool
+  /-- `dialect.label_length` -/
+  labelLength : Option Nat
+  maxIndex : Option Nat
+  maxConstraint : Option Nat
+deriving Repr
+
+inductive LOp
+  /-- `initialize(connection)`; the argument is what `_check_max_identifier_length` returns -/
+  | connect (serverLimit : Option Nat)
+  /-- `truncate_and_render_index_name(name)` / `…_constraint_name(name)`; `isTrunc` = conv name -/
+  | fmtIndex (isTrunc : Bool) (name : Str)
+  | fmtConstraint (isTrunc : Bool) (name : Str)
+  /-- a new compiler renders one label: `_truncated_identifier("colident", name)` -/
+  | label (name : Str)
+deriving Repr
+
+inductive LOut
+  | connected | argumentError | identifierError | name (r : Str)
+deriving Repr, DecidableEq
+
+/-- `label_length or max_identifier_length` as read by `SQLCompiler.__init__` -/
+def effLabel (st : DState) : Nat :=
+  match st.labelLength with
+  | some l => if l == 0 then st.maxIdent else l
+  | none => st.maxIdent
+
+/-- `max_identifier_length` after `_check_max_identifier_length` -/
+def newMaxIdent (st : DState) (serverLimit : Option Nat) : Nat :=
+  if st.userDefined then st.maxIdent else
+  match serverLimit with
+  | some l => if l == 0 then st.maxIdent else l
+  | none => st.maxIdent
+
+/-- the part of `initialize()` that concerns identifier limits -/
+def connectStep (st : DState) (serverLimit : Option Nat) : DState × LOut :=
+  let mi := newMaxIdent st serverLimit
+  let st' := { st with maxIdent := mi }
+  match st.labelLength with
+  | some ll => if ll != 0 && ll > mi then (st', .argumentError) else (st', .connected)
+  | none => (st', .connected)
+
+def lifeStep (md5 : Str → Str) (st : DState) : LOp → DState × LOut
+  | .connect lim => connectStep st lim
+  | .fmtIndex t n =>
+    (st, match truncMaxlen md5 t n (effMax st.maxIndex st.maxIdent) st.maxIdent with
+         | some r => .name r | none => .identifierError)
+  | .fmtConstraint t n =>
+    (st, match truncMaxlen md5 t n (effMax st.maxConstraint st.maxIdent) st.maxIdent with
+         | some r => .name r | none => .identifierError)
+  | .label n => (st, .name (truncIdent (effLabel st) TState.empty 0 n).1)
+
+/-- the run, remembering the state in which each output was produced -/
+def lifeRun (md5 : Str → Str) : DState → List LOp → List (DState × LOp × LOut)
+  | _, [] => []
+  | st, op :: rest =>
+    let (st', out) := lifeStep md5 st op
+    (st', op, out) :: lifeRun md5 st' rest
+
 /-! ## naming conventions -/
 
 /-- what a constraint offers to the convention -/
